@@ -97,6 +97,66 @@ pub fn triggers() -> Vec<String> {
     v
 }
 
+/// Families of characters related by simple case mappings that are not one-to-one
+/// (dotted / dotless i, long s, Kelvin sign, micro sign, final sigma, sharp s,
+/// titlecase digraph): under flag i the first-character analysis and the matching
+/// must use the same relation, else a repeat is wrongly made non-backtracking.
+const CASE_FAMILIES: [&[char]; 7] = [
+    &['i', 'I', '\u{130}', '\u{131}'],
+    &['s', 'S', '\u{17f}'],
+    &['k', 'K', '\u{212a}'],
+    &['\u{b5}', '\u{3bc}', '\u{39c}'],
+    &['\u{3c3}', '\u{3c2}', '\u{3a3}'],
+    &['\u{df}', '\u{1e9e}'],
+    &['\u{1c4}', '\u{1c5}', '\u{1c6}'],
+];
+
+/// The hand-picked families, then every set of three or more characters with the
+/// same simple case folding (data: ICU, as used by regexml itself).
+fn case_families(all: bool) -> Vec<Vec<char>> {
+    let mut v: Vec<Vec<char>> = CASE_FAMILIES.iter().map(|f| f.to_vec()).collect();
+    if all {
+        let cm = icu_casemap::CaseMapper::new();
+        let mut by_fold: std::collections::BTreeMap<char, Vec<char>> = Default::default();
+        for c in (0u32..0x110000).filter_map(char::from_u32) {
+            let f = cm.simple_fold(c);
+            if f != c || cm.simple_uppercase(c) != c || cm.simple_lowercase(c) != c {
+                by_fold.entry(f).or_default().push(c);
+            }
+        }
+        for (_, fam) in by_fold {
+            if fam.len() >= 3 && !v.contains(&fam) {
+                v.push(fam);
+            }
+        }
+    }
+    v
+}
+
+/// (family index, pattern)
+pub fn case_triggers(all: bool) -> Vec<(usize, String)> {
+    let mut v = vec![];
+    for (k, fam) in case_families(all).iter().enumerate() {
+        for a in fam.iter() {
+            for b in fam.iter() {
+                for p in [
+                    format!("{}*{}", a, b),
+                    format!("{}+{}", a, b),
+                    format!("{}?{}", a, b),
+                    format!("{}*[{}]", a, b),
+                    format!("[{}]*{}", a, b),
+                    format!("[{}]+[{}]", a, b),
+                    format!("^{}*?{}$", a, b),
+                    format!("{}{{1,2}}{}1", a, b),
+                ] {
+                    v.push((k, p));
+                }
+            }
+        }
+    }
+    v
+}
+
 fn space_for(tier: Tier) -> (Space, usize) {
     let mut s = Space::new();
     let t = triggers().len() as u64;
@@ -108,6 +168,7 @@ fn space_for(tier: Tier) -> (Space, usize) {
             s.ast_range("ALT", 1, 3, 32, 4);
             s.ast_range("FX", 1, 4, 32, 5).ast_range("FXA", 1, 4, 32, 5);
             s.list("triggers", t, 16);
+            s.list("case triggers", case_triggers(false).len() as u64, 16);
             (s, 3)
         }
         Tier::Thorough => {
@@ -115,7 +176,10 @@ fn space_for(tier: Tier) -> (Space, usize) {
             s.ast_range("LP", 1, 4, 32, 6);
             s.ast_range("ALT", 1, 4, 32, 4);
             s.ast_range("FX", 1, 4, 32, 6).ast_range("FXA", 1, 4, 32, 6);
+            s.ast_range("K", 6, 6, 512, 203).ast_range("CL", 5, 5, 128, 203).ast_range("AN", 5, 5, 128, 204);
+            s.ast_range("KL", 1, 3, 16, 208).ast_range("KL", 4, 4, 32, 206);
             s.list("triggers", t, 16);
+            s.list("case triggers", case_triggers(true).len() as u64, 16);
             (s, 4)
         }
     }
@@ -228,6 +292,24 @@ impl Check for C08 {
         let (sp, maxlen) = space_for(ctx.tier);
         let (seg, lo, hi) = sp.locate(chunk);
         let scope_name = space::seg_scope_name(seg);
+        if let SegKind::List { name: "case triggers" } = seg.kind {
+            let all = ctx.tier == Tier::Thorough;
+            let t = case_triggers(all);
+            let fams = case_families(all);
+            for i in lo..hi {
+                let (k, text) = &t[i as usize];
+                if common::ref_valid(text, ctx).is_none() {
+                    out.inc("ref_invalid_skipped");
+                    continue;
+                }
+                let mut sigma: Vec<char> = fams[*k].clone();
+                sigma.push('1');
+                let inputs = all_strings(&sigma, 3);
+                one_pattern(out, &scope_name, text, &inputs);
+                out.sample(J::obj(vec![("trigger_pattern", J::s(text))]));
+            }
+            return;
+        }
         if let SegKind::List { .. } = seg.kind {
             let t = triggers();
             let inputs = all_strings(&['a', 'b', 'A', '1', '\n'], maxlen.min(3));
@@ -252,13 +334,19 @@ impl Check for C08 {
             SegKind::Ast { scope, .. } => crate::gen::scope(scope).sigma,
             _ => unreachable!(),
         };
-        let maxlen = if seg.param > 0 { seg.param } else { maxlen };
+        // layer parameter: input-length bound + 100 * restriction (see C01)
+        let restriction = seg.param / 100;
+        let maxlen = if seg.param % 100 > 0 { seg.param % 100 } else { maxlen };
         let inputs = all_strings(&sigma, maxlen);
         space::for_each_text(seg, lo, hi, &mut |_i, text| {
             let parsed = match common::ref_valid(text, ctx) {
                 Some(p) => p,
                 None => return,
             };
+            if (restriction >= 1 && parsed.ast.has_nullable_loop()) || (restriction >= 2 && parsed.ast.quant_depth() >= 2) {
+                out.inc("restricted_layer_skipped");
+                return;
+            }
             out.shape = parsed.ast.shape();
             one_pattern(out, &scope_name, text, &inputs);
             out.sample(J::obj(vec![("pattern", J::s(text))]));
